@@ -33,8 +33,8 @@ const (
 )
 
 type leafInfo struct {
-	class        int  // one of the kinds above
-	redirectCode int  // for kRedirect
+	class        int // one of the kinds above
+	redirectCode int // for kRedirect
 	redirectTo   string
 }
 
@@ -46,7 +46,7 @@ func (e foreignErr) Error() string { return e.msg }
 
 // genLeaf returns one error leaf together with its documented class.
 func genLeaf(name string, leaves *[]leafInfo) error {
-	switch verifapi.NondetChoice(name+".leaf", 11) {
+	switch verifapi.NondetChoice(name+".leaf", verifapi.Bound("leaf_kinds", 11)) {
 	case 0:
 		*leaves = append(*leaves, leafInfo{class: kAuthn})
 		return heimdall.ErrAuthentication
@@ -57,25 +57,25 @@ func genLeaf(name string, leaves *[]leafInfo) error {
 		*leaves = append(*leaves, leafInfo{class: kComm})
 		return heimdall.ErrCommunication
 	case 3:
-		*leaves = append(*leaves, leafInfo{class: kComm})
-		return heimdall.ErrCommunicationTimeout
-	case 4:
 		*leaves = append(*leaves, leafInfo{class: kPrecond})
 		return heimdall.ErrArgument
-	case 5:
+	case 4:
 		*leaves = append(*leaves, leafInfo{class: kNoRule})
 		return heimdall.ErrNoRuleFound
-	case 6:
+	case 5:
 		*leaves = append(*leaves, leafInfo{class: kInternal})
 		return heimdall.ErrInternal
-	case 7:
-		*leaves = append(*leaves, leafInfo{class: kInternal})
-		return heimdall.ErrConfiguration
-	case 8:
+	case 6:
 		code := int(verifapi.NondetIntRange(name+".redirect_code", 300, 399))
 		to := "https://" + verifapi.NondetStringN(name+".redirect_to", 2)
 		*leaves = append(*leaves, leafInfo{class: kRedirect, redirectCode: code, redirectTo: to})
 		return &heimdall.RedirectError{Message: "redirect", Code: code, RedirectTo: to}
+	case 7:
+		*leaves = append(*leaves, leafInfo{class: kComm})
+		return heimdall.ErrCommunicationTimeout
+	case 8:
+		*leaves = append(*leaves, leafInfo{class: kInternal})
+		return heimdall.ErrConfiguration
 	case 9:
 		*leaves = append(*leaves, leafInfo{class: kInternal})
 		return errForeign
